@@ -1,6 +1,12 @@
 # C04 sorted sets: skip list (raw-pointer code, memory-safety checks ON), MAX_LEVEL shrunk 32 -> 4
-group("skl", family="vec", shrinks={"MAX_LEVEL": 4}, overlays={"src/storage/skiplist.rs": "ovl_skiplist.rs"})
+KI_SUBST = [(r"use crate::verif_std::HashMap;", "use self::verif_ovl_skiplist::KeyIndexModel as HashMap;", "src/storage/skiplist.rs")]
+group("skl", family="vec", shrinks={"MAX_LEVEL": 4}, overlays={"src/storage/skiplist.rs": "ovl_skiplist.rs"}, subst=KI_SUBST)
+group("zse", family="vec", shrinks={"MAX_LEVEL": 4, "SHARDS_PER_DATABASE": 2}, subst=KI_SUBST,
+      overlays={"src/storage/skiplist.rs": "ovl_skiplist.rs", "src/storage/engine.rs": "ovl_zset_engine.rs"})
+NOREACH = ["--no-assertion-reach-checks"]
 for _n in ("c04_build_h213", "c04_insert_h121", "c04_remove_h213", "c04_rank_h213", "c04_byrank_h213", "c04_byscore_h213"):
-    K(_n, "skl", ["C04"], tier="quick", timeout=1200, memsafe=True, desc="wip", encodes=[], bounds="", stubs=[])
-for _n in ("x_remove_a", "x_remove_b", "x_remove_c", "x_remove_d", "x_remove_e", "x_remove_f"):
-    K(_n, "skl", ["X04"], tier="thorough", timeout=1200, memsafe=True, desc="experiment", encodes=[], bounds="", stubs=[])
+    K(_n, "skl", ["C04"], tier="quick", timeout=1200, memsafe=True, desc="wip", encodes=[], bounds="", stubs=[], extra=NOREACH)
+for _n in ("x_ins_a", "x_ins_b", "x_ins_c", "x_rem_v", "x_remove_a", "x_remove_d"):
+    K(_n, "skl", ["X04"], tier="thorough", timeout=1200, memsafe=True, desc="experiment", encodes=[], bounds="", stubs=[], extra=NOREACH)
+for _n in ("c04_e_zadd_rest", "c04_e_zadd_kf", "c04_e_zincrby_rest", "c04_e_zincrby_kf", "c04_e_zrem_n1", "c04_e_zrem_n2", "c04_e_zrange_rest", "c04_e_zrange_kf", "c04_e_zrank_n2", "c04_e_zrangebyscore_n2"):
+    K(_n, "zse", ["X04"], tier="thorough", timeout=1200, memsafe=True, desc="wip", encodes=[], bounds="", stubs=[], extra=NOREACH)
